@@ -29,6 +29,7 @@ func init() {
 		Assumptions: []string{"resource.Value/Collection write semantics (C02, C05)", "unitpb.Convert32 arithmetic (C18)"},
 		Run:         runC20,
 		Controls: []Control{
+			{Name: "computed-properties-after-caller-options", File: "pkg/trait/publicationpb/model.go", Old: "\topts = append([]resource.WriteOption{m.withComputedProperties(args)}, opts...)", New: "\topts = append(opts, m.withComputedProperties(args))", Expect: "R20.11"},
 			{Name: "revert-F21-consumables-to-inventory", File: "pkg/trait/vendingpb/model_opts.go", Old: "\t\targs.consumableOptions = append(args.consumableOptions, opts...)\n\t})", New: "\t\targs.inventoryOptions = append(args.inventoryOptions, opts...)\n\t})", Expect: "R20.1"},
 			{Name: "revert-F22-default-modes", File: "pkg/trait/modepb/model.go", Old: "\t\tmodes: modes,", New: "\t\tmodes: DefaultModes,", Expect: "R20.1"},
 			{Name: "revert-F23-swallowed-error", File: "pkg/trait/vendingpb/model.go", Old: "\tif maskedErr != nil {\n\t\treturn nil, maskedErr\n\t}", New: "\tif maskedErr != nil {\n\t\treturn nil, err\n\t}", Expect: "R20.2"},
@@ -62,6 +63,9 @@ func runC20(c *an.Ctx) {
 	r208(c)
 	r209(c)
 	r2010(c)
+	r2011(c)
+	r201accumulate(c)
+	c.Min("R20.11", 3)
 	c.Min("R20.1", 55)
 	c.Min("R20.2", 100)
 	c.Min("R20.3", 4)
@@ -1028,7 +1032,24 @@ func r209(c *an.Ctx) {
 				}
 			})
 		}
-		c.Check(ok, rule, an.FuncName(fn)+"|end_time of the new reading is the resource clock's now", fn.Pos(), "", "RecordReading does not stamp the new value's EndTime from the resource clock in its interceptor")
+		// ... on every path of the interceptor (a reading that repeats the previous usage still ends the period now)
+		for _, f := range an.WithClosures(fn) {
+			if f == fn || len(f.Params) != 2 {
+				continue
+			}
+			stamps := func(x ssa.Instruction) bool {
+				st, isSt := x.(*ssa.Store)
+				if !isSt {
+					return false
+				}
+				_, _, fld, isF := an.FieldOf(st.Addr)
+				return isF && fld == "EndTime" && fromClock(st.Val, nows)
+			}
+			if t, _ := (an.PathQuery{Target: func(x ssa.Instruction) bool { _, isRet := x.(*ssa.Return); return isRet }, Avoid: stamps}).From(f, nil); t != nil {
+				ok = false
+			}
+		}
+		c.Check(ok, rule, an.FuncName(fn)+"|end_time of the new reading is the resource clock's now", fn.Pos(), "", "RecordReading does not stamp the new value's EndTime from the resource clock on every path of its interceptor (e.g. it keeps the old end time when the usage repeats): the end time stops tracking the last recording")
 	}
 }
 
@@ -1145,4 +1166,140 @@ func searchCallsDeep(fn *ssa.Function) []searchCall {
 		}
 	})
 	return out
+}
+
+// r2011: interceptors a model adds of its own go BEFORE the caller's write options: the resource keeps one
+// interceptor of each kind (the last one given wins), and callers - including the model's own server - rely on
+// theirs taking effect (publication acknowledge stamps receipt_time through InterceptAfter).
+func r2011(c *an.Ctx) {
+	const rule = "R20.11"
+	resPath := an.ModulePath + "/pkg/resource."
+	isInterceptor := func(v ssa.Value) bool {
+		var check func(v ssa.Value, depth int) bool
+		check = func(v ssa.Value, depth int) bool {
+			for _, s := range an.Sources(v) {
+				call, ok := s.(*ssa.Call)
+				if !ok {
+					continue
+				}
+				n := an.CalleeName(call)
+				if n == resPath+"InterceptAfter" || n == resPath+"InterceptBefore" {
+					return true
+				}
+				// a model helper that returns one (withComputedProperties)
+				if cal := call.Call.StaticCallee(); cal != nil && depth < 2 && len(cal.Blocks) > 0 && strings.HasPrefix(cal.Package().Pkg.Path(), an.ModulePath+"/pkg/trait") {
+					for _, r := range an.Returns(cal) {
+						if len(r.Results) == 1 && check(r.Results[0], depth+1) {
+							return true
+						}
+					}
+				}
+			}
+			return false
+		}
+		return check(v, 0)
+	}
+	n := 0
+	for _, fn := range c.Prog.FuncsIn("pkg/trait") {
+		if c.Prog.IsGenerated(fn.Pos()) || fn.Parent() != nil || !fn.Signature.Variadic() {
+			continue
+		}
+		last := fn.Params[len(fn.Params)-1]
+		if !strings.Contains(last.Type().String(), "pkg/resource.WriteOption") {
+			continue
+		}
+		an.Instrs(fn, func(in ssa.Instruction) {
+			call, ok := in.(*ssa.Call)
+			if !ok || an.CalleeName(call) != "builtin append" || len(call.Call.Args) != 2 {
+				return
+			}
+			// which side is the caller's options?
+			fromCaller := func(v ssa.Value) bool {
+				for _, s := range an.SourcesOpaque(v) {
+					if s == ssa.Value(last) {
+						return true
+					}
+				}
+				return false
+			}
+			// elements of a slice literal
+			elemsOf := func(v ssa.Value) []ssa.Value {
+				var out []ssa.Value
+				for _, s := range an.SourcesOpaque(v) {
+					sl, isSl := s.(*ssa.Slice)
+					if !isSl {
+						continue
+					}
+					an.Instrs(fn, func(x ssa.Instruction) {
+						if st, isSt := x.(*ssa.Store); isSt {
+							if ia, isIA := st.Addr.(*ssa.IndexAddr); isIA && ia.X == sl.X {
+								out = append(out, st.Val)
+							}
+						}
+					})
+				}
+				return out
+			}
+			base, added := call.Call.Args[0], call.Call.Args[1]
+			switch {
+			case fromCaller(base):
+				// append(opts, own…): the model's options come last
+				for _, e := range elemsOf(added) {
+					if isInterceptor(e) {
+						n++
+						c.SawFunc(an.FuncName(fn))
+						c.Bad(rule, an.FuncName(fn)+"|the model's own interceptor does not displace the caller's", call.Pos(),
+							"an interceptor of the model is appended AFTER the caller's write options: the resource keeps the last interceptor of a kind, so the caller's is silently dropped (e.g. AcknowledgePublication's InterceptAfter that stamps receipt_time: an acknowledgement is stored without its receipt time)")
+					}
+				}
+			case fromCaller(added):
+				for _, e := range elemsOf(base) {
+					if isInterceptor(e) {
+						n++
+						c.SawFunc(an.FuncName(fn))
+						c.Ok(rule, an.FuncName(fn)+"|the model's own interceptor does not displace the caller's", call.Pos(), "own options first")
+					}
+				}
+			}
+		})
+	}
+	c.Count("interceptor_merges", n)
+}
+
+// r201accumulate: an option that replaces a piece of configuration replaces everything derived from it: state
+// kept in a map field of modelArgs is rebuilt on every application, not topped up (the defaults are applied
+// before the caller's options, so anything that accumulates keeps the defaults).
+func r201accumulate(c *an.Ctx) {
+	const rule = "R20.1"
+	for _, fn := range c.Prog.FuncsIn("pkg/trait") {
+		if c.Prog.IsGenerated(fn.Pos()) || fn.Parent() == nil {
+			continue
+		}
+		an.Instrs(fn, func(in ssa.Instruction) {
+			mu, ok := in.(*ssa.MapUpdate)
+			if !ok {
+				return
+			}
+			fresh, fromArgs := true, false
+			for _, s := range an.SourcesOpaque(mu.Map) {
+				if _, isMake := s.(*ssa.MakeMap); isMake {
+					continue
+				}
+				if _, sn, _, isF := an.FieldOf(s); isF && strings.HasSuffix(sn, ".modelArgs") {
+					fromArgs = true
+					fresh = false
+				}
+			}
+			if !fromArgs {
+				return
+			}
+			top := fn
+			for top.Parent() != nil {
+				top = top.Parent()
+			}
+			c.SawFunc(an.FuncName(top))
+			c.Check(fresh, rule, an.FuncName(top)+"|derived configuration is rebuilt, not topped up", mu.Pos(), "",
+				"an option writes entries into a map of modelArgs that may already hold entries from an earlier application (the package defaults are applied first): a model constructed with explicit configuration keeps the defaults' entries, e.g. preset names that were not configured are accepted and resolve to the wrong index")
+		})
+	}
 }
